@@ -534,3 +534,29 @@ From Hoot.proofs Require Import Gen2_equiv_has.
 Theorem c10_code_headers_has : forall l k v, gen_headers_has l k v = headers_has l k v.
 Proof. exact gen_headers_has_eq. Qed.
 Print Assumptions c10_code_headers_has.
+
+(* ================================================================== the close-reason list itself (translated from the source) *)
+(** [add_close_reason] (each reason recorded once, in order), [CloseReason::explain], and [close_reason] / [must_close_connection] of
+    the Redirect and Cleanup states (the first recorded reason, explained; must close exactly when there is one) are translated on
+    every run (theories/Gen2.v) and proved EQUAL to the model's [add_reason], [explain], [close_reason], [must_close]
+    (proofs/Gen2_equiv_small_reasons.v).  The larger translations above use the model's [add_reason] for the calls of
+    [add_close_reason]: with this equality that reading is the code's own function. *)
+From Hoot.proofs Require Import Gen2_equiv_small_reasons.
+Theorem c10_code_add_close_reason : forall rs r,
+  gen_add_close_reason rs r = bind (add_reason rs r) (fun rs' => Ok (rs', tt)).
+Proof. exact gen_add_close_reason_eq. Qed.
+Print Assumptions c10_code_add_close_reason.
+Theorem c10_code_explain : forall r, gen_explain r = explain r.
+Proof. exact gen_explain_eq. Qed.
+Print Assumptions c10_code_explain.
+Theorem c10_code_close_reason : forall f,
+  gen_close_reason (i_reasons f) = close_reason f /\ gen_redirect_close_reason (i_reasons f) = close_reason f.
+Proof. intros f. split; [exact (gen_close_reason_eq f)|exact (gen_redirect_close_reason_eq f)]. Qed.
+Print Assumptions c10_code_close_reason.
+Theorem c10_code_must_close : forall f,
+  gen_must_close (i_reasons f) = must_close f /\ gen_redirect_must_close (i_reasons f) = must_close f.
+Proof. intros f. split; [exact (gen_must_close_eq f)|exact (gen_redirect_must_close_eq f)]. Qed.
+Print Assumptions c10_code_must_close.
+Theorem c10_code_must_close_iff : forall rs, gen_must_close rs = true <-> rs <> [].
+Proof. exact gen_must_close_iff. Qed.
+Print Assumptions c10_code_must_close_iff.
